@@ -23,9 +23,11 @@ func init() {
 		ID:    "C08",
 		Level: "exploration",
 		Rule: "programs over 2-5 packages with random orders of in-package / export (before and after definition) / use-package / set / defun / defmacro / redefinition after import / qualified and unqualified references / functions that set or read globals when called from another package / load-string nesting (depth <= 3) with in-package inside / attempts to bind :k, true, false through set, set!, let, lambda formals, labels, dotimes; " +
-			"every reference is observed through an effect probe; values, conditions, the probe trace, Runtime.Package.Name after the load and the per-package symbol tables are compared with the reference model. distinct_nontrivial counts distinct (statement-kind bigram, outcome) and (reference kind, resolution outcome) signatures",
+			"every reference is observed through an effect probe; values, conditions, the probe trace, Runtime.Package.Name after the load and the per-package symbol tables are compared with the reference model. distinct_nontrivial counts distinct (statement-kind bigram, outcome) and (reference kind, resolution outcome) signatures. " +
+			"Appended family (c08_refused.go): histories of several top-level loads on one runtime whose statements include REFUSED in-package / use-package / export calls (7 classes of refusal x 4 ways of carrying on: handler-bind, ignore-errors, a load-string that fails, a top-level load that fails), followed by the valid form on the same name; what a refused call leaves behind is not judged, what the property states is (after any history); counted as (class, guard, neighbouring statement kind) and (class, reference kind, outcome) signatures",
 		Assumptions: []string{
 			"the package model is harness/refint (packages are tables; use-package copies the exported bindings present at that moment; a function body runs with its defining package current; load restores the package)",
+			"what a refused in-package leaves behind is not specified: the current package after it and the existence of the package it named are not judged (refint.Interp.RefusedPackageOpsUnjudged)",
 		},
 		Cases: func(tier string) int { return c08MainCases(tier) + c08RefusedCases(tier) },
 		Run: func(w *fw.W, idx int) {
